@@ -1211,8 +1211,28 @@ def run(ctx):
             ctx.fail(classify(lf, res, "differs"), case, "; ".join("%s: %s" % tuple(p) for p in res["problems"])[:1500])
 
 
+def replay_aliasing(case):
+    """decompress two pages of the stored size with the stored codec; the values read from the first must survive the second"""
+    import numpy as np
+    C.use_shadow()
+    from fastparquet import encoding
+    from fastparquet.compression import compress_data, decompress_data
+    size, algo = case["size"], case["codec"]
+    a = (np.arange(size) % 251).astype("uint8")
+    b = (np.arange(size) % 241).astype("uint8")
+    first = decompress_data(np.frombuffer(compress_data(a.tobytes(), algo), "uint8"), size, algo)
+    held = encoding.read_plain(first, 2, size // 8)
+    snapshot = np.array(held, copy=True)
+    decompress_data(np.frombuffer(compress_data(b.tobytes(), algo), "uint8"), size, algo)
+    same = bool((np.asarray(held) == snapshot).all())
+    print("%s, %d bytes: values of the first page %s after the second page was decompressed" % (algo, size, "unchanged" if same else "CHANGED"))
+    return 0 if same else 1
+
+
 def replay(rep):
     warnings.filterwarnings("ignore")
+    if rep.get("kind") != "no-failing-input-found" and "aliasing" in rep.get("case", {}):
+        return replay_aliasing(rep["case"])
     if rep.get("kind") == "no-failing-input-found" or "expect" not in rep.get("case", {}):
         print(json.dumps(rep, indent=1)[:6000])
         return 1
